@@ -83,6 +83,16 @@ impl LoggingBackend {
     }
 }
 
+/// Crash images are multi-megabyte buffers cloned thousands of times; by default glibc serves
+/// each one with a fresh `mmap` (page faults on every byte).  Keep them on the heap instead.
+pub fn tune_malloc() {
+    unsafe {
+        libc::mallopt(libc::M_MMAP_THRESHOLD, 512 << 20);
+        libc::mallopt(libc::M_TRIM_THRESHOLD, 1 << 30);
+        libc::mallopt(libc::M_TOP_PAD, 32 << 20);
+    }
+}
+
 fn oob() -> io::Error {
     io::Error::new(io::ErrorKind::InvalidInput, "index out of range")
 }
